@@ -6,7 +6,12 @@ rows = []
 for m in sorted(glob.glob(os.path.join(V, "seeded", "*", "meta.json"))):
     d = json.load(open(m)); tag = os.path.basename(os.path.dirname(m))
     runs = d.get("checks_run", [])
-    caught = ", ".join(f"{r['check'].split()[1]}:{'caught' if r['caught'] else 'MISSED'}" for r in runs) or "(not yet run)"
+    def verdict(r):
+        if not r["caught"]:
+            return "MISSED"
+        # runs recorded before the source pins existed always had a failing input or a broken data theorem
+        return "caught" if r.get("with_failing_input", True) else "caught (source pin / theorem only, no failing input)"
+    caught = ", ".join(f"{r['check'].split()[1]}:{verdict(r)}" for r in runs) or "(not yet run)"
     first = ""
     for r in runs:
         for l in r.get("output", []):
